@@ -164,6 +164,19 @@ BUILT = {
         note='Trusted: TLC, ModQ interpreter. Bounded: orders <= 8 (quick) / 16, Forbes polynomials n <= 5, m <= 3 (quick) / n <= 9, m <= 5, derivative orders <= 3; '
              'only the documented table entries are compared. The ray-tracing surface helpers are covered through C19.',
         technique='TLA+ specs (formal derivatives in PolyDefs/OrthoPoly/QPoly, Clenshaw.tla derivative-recurrence machine) checked by TLC; exact derivative values replayed into prysm'),
+    'C10': dict(
+        spec='ModalSum.tla, Clenshaw.tla, QPoly.tla, OrthoPoly.tla',
+        text='ModalSum.tla models the tensor contraction of a mode stack (law: equals the explicit accumulation for every weight pattern), the Q2d coefficient '
+             'packer as a pure data-structure transformation (law: reading the packed (cm0, a[m][n], b[m][n]) back yields exactly the non-zero input terms, '
+             'both families present for every m, whatever the azimuthal content) and least-squares fitting with an exact integer Gram-determinant rank guard '
+             '(law: the synthesising coefficients solve the normal equations over the valid samples only). Clenshaw.tla (row 0) proves the Clenshaw sum '
+             'equals the explicit sum for dense, sparse and length-1 vectors. Replayed: sum_of_2d_modes (array and list forms), Q2d_nm_c_to_a_b structure, '
+             'compute_z_zprime_Q2d on the specified packing against the explicit sum of the library\'s own modes for 21 term lists (cosine only, sine only, '
+             'm = 0 only, unequal lengths, repeats), jacobi_sum_clenshaw, clenshaw_qbfs and compute_z_zprime_Qbfs/_Qcon against sums of the exact modes, '
+             'lstsq with NaN / +inf / -inf at the masked positions in 1-D and 2-D forms (only when the guard says full rank), and Interferogram.pvr.',
+        note='Trusted: TLC, numpy.linalg.lstsq conditioning at 1e-9. Bounded: <= 3 modes over 6/9 (12) samples with masks of <= 3 positions plus rank-deficient '
+             'masks; coefficient vectors of length <= 6.',
+        technique='TLA+ specs (ModalSum.tla data-structure and rank-guard laws, Clenshaw.tla sum machine) checked by TLC; emitted cases replayed into prysm.polynomials fast paths and lstsq'),
 }
 
 NOT_BUILT_REASON = 'not built yet in this round (specification planned in DESIGN.md section 4; never decided by another technique)'
